@@ -13,4 +13,13 @@ if [ -n "$RUN_TESTS" ]; then
 fi
 cp -r "$HERE" "$SCR/verif" && rm -rf "$SCR/verif/.git" "$SCR/verif/replays/$ID/found_"*
 USIM_REPO="$SCR/repo" "$SCR/verif/bin/check" "$ID" --tier "$TIER" 2>&1 | grep -v '^   \|^ got\|^ want\|^ full' | cut -c1-260 | head -${LINES_MAX:-40}
-echo "exit=${PIPESTATUS[0]}"
+RC=${PIPESTATUS[0]}
+if [ -n "$SAVE_REPLAY" ]; then
+  # keep (up to 2) shrunk failing cases as regression corpus of the real tree
+  mkdir -p "$HERE/corpus/$ID"; n=0
+  for f in "$SCR/verif/replays/$ID"/found_*.json; do
+    [ -f "$f" ] || continue; n=$((n+1)); [ $n -gt 2 ] && break
+    cp "$f" "$HERE/corpus/$ID/regress_$(basename "$PATCH" .diff)_$n.json"
+  done
+fi
+echo "exit=$RC"
